@@ -80,6 +80,48 @@ CHECKS["C09"] = dict(
     technique="symbolic execution of the real verifier on trees with symbolic names/ids/values + SMT equivalence with the spec",
 )
 
+CHECKS["C08"] = dict(
+    engine="pysym",
+    category="model_checking",
+    text="The real FcpV2Transformer (through the public get_fcp, incl. mod_expr, the nested transformer and merge) runs "
+         "under pysym on Lark trees produced by the real parser from concrete templates whose identifier leaves are "
+         "replaced by opaque name atoms. For every equality pattern among declarations and references z3 decides: "
+         "accepted <=> every reference names a declaration visible before its use (same file or module imported "
+         "earlier); accepted => kind tag and get_type agree with the declaration; rejected => the error chain names the "
+         "type and the enclosing struct.",
+    design_ref="DESIGN.md §4 C08",
+    note="Parser boundary stubbed: that the Earley parser maps text to these trees is outside the claim (C07's domain), "
+         "as is the real file system (in-memory open). Declared names assumed pairwise distinct. Bound: 6 templates "
+         "(containers to depth 3, self/forward references, 1-3 files, dotted and nested modules).",
+    technique="symbolic execution of the real Lark Transformer on trees with symbolic names (opaque atoms) + SMT",
+)
+CHECKS["C15"] = dict(
+    engine="pysym",
+    category="model_checking",
+    text="For struct shapes whose ids are not in declaration order and every permutation of their declarations: real "
+         "serde.encode of the schema and of its permuted twin give equal bytes for ALL values (one validity query per "
+         "path) and both decode them alike; the packed layout with symbolic integer widths is equal; the generated DBC "
+         "text is equal; generated C/C++ are compared through llsym where built.",
+    design_ref="DESIGN.md §4 C15",
+    note="Invariance only; which order is right is pinned by C02/C04. DBC text equality is a concrete comparison of the "
+         "real generator's output (a deterministic artefact with no free input). Bound: listed shapes x <= 24 "
+         "permutations.",
+    technique="symbolic execution of the real Python back ends on a schema and its declaration-permuted twin + SMT equivalence",
+)
+CHECKS["C20"] = dict(
+    engine="pysym",
+    category="model_checking",
+    text="A template schema with every declaration kind is split by enumerated plans (module trees to depth 3, dotted "
+         "paths, nested imports); the split and the single-file schema both run through the real get_fcp under pysym "
+         "with symbolic names, and z3 proves on every path that verdicts coincide and all five declaration categories "
+         "are equal as multisets. FcpV2.merge is checked in isolation; injected errors (unresolved reference in a "
+         "module, syntax errors at enumerated positions, missing files) must come back as Err naming the module/file.",
+    design_ref="DESIGN.md §4 C20",
+    note="Parser boundary and file system stubbed as in C08. Precondition encoded as assumption: references inside a "
+         "module do not name declarations that exist only outside it. Module names are concrete identifiers.",
+    technique="symbolic execution of the real import/merge code on split vs. single-file trees with symbolic names + SMT",
+)
+
 NOT_APPLICABLE = {
     "C07": "Subject is the Lark Earley parser with a dynamic regex lexer over all texts: it cannot be executed "
            "symbolically by CrossHair or by the proxy engine within reach (DESIGN.md §6); grammar-based generation would "
